@@ -110,7 +110,26 @@ def safe_run_case(mod, case):
     except Exception as exc:  # noqa
         sig = rnapolis_exception_signature(exc)
         if sig is None:
-            raise
+            if os.environ.get("VERIF_STRICT"):
+                raise
+            # The judge itself failed on what the library returned (e.g. an interaction without residues, a text that is not the format the
+            # observation point defines). On the unchanged tree this never happens (every run there is silent); on a changed tree the value
+            # returned no longer has the shape the property speaks about. Reported as such - with the harness frame - instead of ending the
+            # run in an engine error that would hide every other finding. VERIF_STRICT=1 re-raises (harness debugging).
+            fr = traceback.extract_tb(exc.__traceback__)[-1]
+            return dict(
+                nontrivial=True,
+                outcome="unjudgeable",
+                violations=[
+                    dict(
+                        signature="unjudgeable:%s@%s:%s" % (type(exc).__name__, os.path.basename(fr.filename), fr.name),
+                        message="the value the library returned for this case could not be judged: %s: %s (raised in the harness at %s:%d while reading the returned value)"
+                        % (type(exc).__name__, str(exc)[:200], os.path.basename(fr.filename), fr.lineno),
+                        observed=traceback.format_exc()[-1500:],
+                        expected="a value of the shape the property's observation point defines",
+                    )
+                ],
+            )
         res = dict(
             nontrivial=True,
             outcome="exception",
